@@ -1,0 +1,29 @@
+//go:build verif
+
+package tcplistener
+
+// MultiLineReaderForVerif exposes multiLineReader to external verification harnesses
+type MultiLineReaderForVerif struct {
+	mlr *multiLineReader
+}
+
+// NewMultiLineReaderForVerif creates a multiLineReader exactly as runConnection does
+func NewMultiLineReaderForVerif(read func(p []byte) (int, error), test func(s []byte) bool, minBufferSize, softRecordLimit int,
+	consume func(s []byte),
+) *MultiLineReaderForVerif {
+	return &MultiLineReaderForVerif{newMultiLineReader(read, test, minBufferSize, softRecordLimit, consume)}
+}
+
+// Read calls multiLineReader.Read
+func (r *MultiLineReaderForVerif) Read() error { return r.mlr.Read() }
+
+// Flush calls multiLineReader.Flush
+func (r *MultiLineReaderForVerif) Flush() { r.mlr.Flush() }
+
+// FlushAll calls multiLineReader.FlushAll
+func (r *MultiLineReaderForVerif) FlushAll() { r.mlr.FlushAll() }
+
+// Offsets returns (offsetSearch, offsetAppend, len(buffer))
+func (r *MultiLineReaderForVerif) Offsets() (int, int, int) {
+	return r.mlr.offsetSearch, r.mlr.offsetAppend, len(r.mlr.buffer)
+}
